@@ -333,6 +333,8 @@ def check_call(prog: Program, res: Result) -> None:
 
 
 def check(prog: Program, res: Result) -> None:
+    from . import _batch
+    _batch.check_every_iteration_accumulates(prog, res, "C05-sum", ["sleap_nn.data.edge_maps:make_multi_pafs"])
     from . import _edges
     _edges.check_edge_order(prog, res, "C05-edges")
     check_nan(prog, res)
